@@ -65,7 +65,11 @@ PROPERTIES = {
     "C09": {"level": "proof", "trusted_base": _TB, "assumptions": ["EV", "SQL"]},
     "C13": {"level": "proof", "trusted_base": _TB, "assumptions": ["WS", "JSON", "A4"]},
     "C19": {"level": "proof", "trusted_base": _TB, "assumptions": ["WS", "JSON", "A4"]},
-    "C15": {"level": "proof", "trusted_base": ["z3 SMT solver", "pyvc VC generator (/verif/pyvc)", "CPython ast module"], "assumptions": ["A3", "EV"]},
+    "C15": {"level": "proof", "trusted_base": ["z3 SMT solver", "pyvc VC generator (/verif/pyvc)", "CPython ast module"], "assumptions": ["A3", "EV", "AUTHENUM"],
+            "extra_checks": [script_check("C15", "auth_enum.py", "configured-urls-are-compared-whole",
+                                          "bounded stand-in (real Authenticator built from each spelling of relay_urls, real check_auth_event on signed answers)",
+                                          "one case per (relay_urls spelling: absent / string / list of one / list of two / tuple) x (relay tag: each configured url, "
+                                          "its prefixes, suffixes, inner substrings, superstrings, '', an unrelated url) x (challenge: issued, a prefix of it, '')")]},
     "C14": {"level": "proof", "trusted_base": ["z3 SMT solver", "pyvc VC generator (/verif/pyvc)", "CPython ast module"], "assumptions": ["EV", "ROLES"],
             "extra_checks": [census_check("C14"), roles_check("C14")]},
     "C16": {
